@@ -37,9 +37,9 @@ from typing import Any
 
 from pyvc.obl import Obligation
 
-from .common import API_OPTIONS_PROTO, API_PROTO, PKG, Builder, Sources, snippet
+from .common import API_OPTIONS_PROTO, API_PROTO, PKG, Builder, Sources, modname, snippet
 from .msgflow import Func, Program, sorted_atoms
-from .protoparse import SCALAR_TYPES, ProtoFile, ProtoMessage, parse_proto
+from .protoparse import ProtoFile, ProtoMessage, parse_proto
 
 PROP = "C13"
 CORE = f"{PKG}/core.py"
@@ -135,7 +135,7 @@ def _module_assignments(tree: ast.Module, name: str) -> list[ast.stmt]:
     return found
 
 
-def _pb2_import_bindings(tree: ast.Module) -> dict[str, list[tuple[str, str]]]:
+def _import_bindings(tree: ast.Module) -> dict[str, list[tuple[str, str]]]:
     """local name -> [(source module text, original name)] for every import binding in the module."""
     out: dict[str, list[tuple[str, str]]] = {}
     for node in ast.walk(tree):
@@ -153,48 +153,77 @@ def _is_pb2(src: str) -> bool:
     return src in (".api_pb2", f"{PKG}.api_pb2")
 
 
+_BINDING_INDEX: dict[int, tuple[ast.Module, dict[str, list[tuple[ast.AST, str]]]]] = {}
+
+
+def _binding_index(tree: ast.Module) -> dict[str, list[tuple[ast.AST, str]]]:
+    """name -> [(node, description)] for every non-import node of the module that binds or deletes the name.
+
+    One walk per tree (the tree object is kept alive in the cache entry, so its id cannot be reused).
+    """
+    hit = _BINDING_INDEX.get(id(tree))
+    if hit is not None and hit[0] is tree:
+        return hit[1]
+    index: dict[str, list[tuple[ast.AST, str]]] = {}
+    for node in ast.walk(tree):
+        if isinstance(node, ast.Name) and isinstance(node.ctx, (ast.Store, ast.Del)):
+            what = "deleted" if isinstance(node.ctx, ast.Del) else "rebound"
+            index.setdefault(node.id, []).append((node, f"line {node.lineno}: {node.id} is {what}"))
+        elif isinstance(node, (ast.FunctionDef, ast.AsyncFunctionDef, ast.ClassDef)):
+            index.setdefault(node.name, []).append((node, f"line {node.lineno}: def/class {node.name}"))
+        elif isinstance(node, (ast.Global, ast.Nonlocal)):
+            for n in node.names:
+                index.setdefault(n, []).append((node, f"line {node.lineno}: global {n}"))
+        # an ``ast.arg`` of that name shadows locally; it cannot change the module binding
+    if len(_BINDING_INDEX) > 64:
+        _BINDING_INDEX.clear()
+    _BINDING_INDEX[id(tree)] = (tree, index)
+    return index
+
+
 def _other_bindings(tree: ast.Module, name: str, defining: ast.stmt | None = None) -> list[str]:
     """Every statement other than ``defining`` (and imports) that binds or deletes ``name``."""
-    hits: list[str] = []
     skip = {id(n) for n in ast.walk(defining)} if defining is not None else set()
-    for node in ast.walk(tree):
-        if id(node) in skip:
-            continue
-        if isinstance(node, ast.Name) and node.id == name and isinstance(node.ctx, (ast.Store, ast.Del)):
-            hits.append(f"line {node.lineno}: {name} is {'deleted' if isinstance(node.ctx, ast.Del) else 'rebound'}")
-        elif isinstance(node, (ast.FunctionDef, ast.AsyncFunctionDef, ast.ClassDef)) and node.name == name:
-            hits.append(f"line {node.lineno}: def/class {name}")
-        elif isinstance(node, (ast.Global, ast.Nonlocal)) and name in node.names:
-            hits.append(f"line {node.lineno}: global {name}")
-        elif isinstance(node, ast.arg) and node.arg == name:
-            pass        # a parameter shadows locally; it cannot change the module binding
-    return hits
+    return [text for node, text in _binding_index(tree).get(name, []) if id(node) not in skip]
 
 
-def _mutations(tree: ast.Module, name: str) -> list[str]:
-    """Statements that mutate the object bound to ``name`` (``T[k] = v``, ``del T[k]``, ``T.update(..)``, ...).
+_MUTATION_MEMO: dict[tuple[int, tuple[str, ...]], tuple[ast.Module, tuple[str, ...]]] = {}
+
+
+def _mutations(tree: ast.Module, names: tuple[str, ...] | str) -> list[str]:
+    """Statements that mutate the object bound to one of ``names`` (``T[k] = v``, ``del T[k]``, ``T.update(..)``, ...).
 
     Matches both the bare name and any attribute access ending in it
     (``core.MESSAGE_TYPE_TO_PROTO[...] = ...``).
     """
+    wanted = (names,) if isinstance(names, str) else tuple(names)
+    memo = _MUTATION_MEMO.get((id(tree), wanted))
+    if memo is not None and memo[0] is tree:      # the entry keeps the tree alive: no id reuse
+        return list(memo[1])
+
     def is_table(e: ast.AST) -> bool:
-        return (isinstance(e, ast.Name) and e.id == name) or \
-               (isinstance(e, ast.Attribute) and e.attr == name)
+        return (isinstance(e, ast.Name) and e.id in wanted) or \
+               (isinstance(e, ast.Attribute) and e.attr in wanted)
 
     hits: list[str] = []
     for node in ast.walk(tree):
-        if isinstance(node, ast.Subscript) and is_table(node.value) \
-                and isinstance(node.ctx, (ast.Store, ast.Del)):
-            hits.append(f"line {node.lineno}: {snippet(node, 60)} is "
-                        f"{'deleted' if isinstance(node.ctx, ast.Del) else 'assigned'}")
-        elif isinstance(node, ast.Call) and isinstance(node.func, ast.Attribute) \
-                and node.func.attr in _MUTATORS and is_table(node.func.value):
-            hits.append(f"line {node.lineno}: {snippet(node, 60)}")
-        elif isinstance(node, ast.AugAssign) and is_table(node.target):
-            hits.append(f"line {node.lineno}: {snippet(node, 60)}")
-        elif isinstance(node, ast.Attribute) and node.attr == name \
-                and isinstance(node.ctx, (ast.Store, ast.Del)):
-            hits.append(f"line {node.lineno}: {snippet(node, 60)} is rebound from outside")
+        if isinstance(node, ast.Subscript):
+            if isinstance(node.ctx, (ast.Store, ast.Del)) and is_table(node.value):
+                hits.append(f"line {node.lineno}: {snippet(node, 60)} is "
+                            f"{'deleted' if isinstance(node.ctx, ast.Del) else 'assigned'}")
+        elif isinstance(node, ast.Call):
+            if isinstance(node.func, ast.Attribute) and node.func.attr in _MUTATORS \
+                    and is_table(node.func.value):
+                hits.append(f"line {node.lineno}: {snippet(node, 60)}")
+        elif isinstance(node, ast.AugAssign):
+            if is_table(node.target):
+                hits.append(f"line {node.lineno}: {snippet(node, 60)}")
+        elif isinstance(node, ast.Attribute):
+            if node.attr in wanted and isinstance(node.ctx, (ast.Store, ast.Del)):
+                hits.append(f"line {node.lineno}: {snippet(node, 60)} is rebound from outside")
+    if len(_MUTATION_MEMO) > 256:
+        _MUTATION_MEMO.clear()
+    _MUTATION_MEMO[(id(tree), wanted)] = (tree, tuple(hits))
     return hits
 
 
@@ -216,11 +245,24 @@ def _table_obligations(b: Builder, proto: ProtoFile, srcs: Sources) -> None:
     for m in proto.messages_with_id():
         by_id.setdefault(m.id, []).append(m)
 
+    def undecided_all(reason: str) -> None:
+        # keep the per-id obligations in existence (as undecided) so that they do not
+        # silently vanish from reports keyed by id
+        for n in sorted(by_id):
+            want = "/".join(sorted(m.name for m in by_id[n]))
+            b.add(f"core.{TABLE}/id={n}/maps-to-declared-message", f"{TABLE}[{n}] is api_pb2.{want}",
+                  F_TABLE, None, witness=f"id={n}:table-unreadable", detail=reason)
+            b.add(f"connection.MESSAGE_NUMBER_TO_PROTO/id={n}/positional-lookup",
+                  f"tuple({TABLE}.values())[{n} - 1] is api_pb2.{want}",
+                  f"{PKG}.connection.MESSAGE_NUMBER_TO_PROTO", None, witness=f"pos={n}:table-unreadable",
+                  detail=reason)
+
     try:
         core = srcs.tree(CORE)
     except (OSError, SyntaxError) as e:
         b.add(f"core.{TABLE}/literal", f"{CORE} can be parsed", F_TABLE, None,
               detail=f"{type(e).__name__}: {e}", witness="core.py:unreadable")
+        undecided_all(f"{CORE} cannot be parsed")
         return
     defs = _module_assignments(core, TABLE)
     lit = defs[0].value if len(defs) == 1 else None
@@ -230,16 +272,19 @@ def _table_obligations(b: Builder, proto: ProtoFile, srcs: Sources) -> None:
           True if shape_ok else None,
           model={"definitions": len(defs), "value": snippet(lit, 80) if lit is not None else None},
           witness=f"{TABLE}:not-a-single-dict-literal",
-          detail="" if shape_ok else "the table cannot be read statically; entry obligations not generated")
+          detail="" if shape_ok else "the table cannot be read statically")
     if not shape_ok:
+        undecided_all("table is not a single dict literal")
         return
     assert isinstance(lit, ast.Dict)
 
-    imports = _pb2_import_bindings(core)
+    imports = _import_bindings(core)
     # entries as written: (key, local value name, original api_pb2 name or None)
     entries: list[tuple[Any, str | None, ast.AST]] = []
+    opaque = False          # some entry could not be read: a failing entry check is then undecided, not refuted
     for pos, (k, v) in enumerate(zip(lit.keys, lit.values), start=1):
         if k is None:
+            opaque = True
             b.add(f"core.{TABLE}/pos={pos}/entry-readable",
                   f"entry {pos} of {TABLE} is a `key: Name` pair", F_TABLE, None,
                   model={"entry": "**" + snippet(v, 60)}, witness=f"pos={pos}:spread",
@@ -251,12 +296,18 @@ def _table_obligations(b: Builder, proto: ProtoFile, srcs: Sources) -> None:
             key = -k.operand.value
         vname = v.id if isinstance(v, ast.Name) else None
         if key is None or vname is None:
+            opaque = True
             b.add(f"core.{TABLE}/pos={pos}/entry-readable",
                   f"entry {pos} of {TABLE} is an `int: Name` pair", F_TABLE, None,
                   model={"key": snippet(k, 40), "value": snippet(v, 60)},
                   witness=f"pos={pos}:{snippet(k, 20)}:{snippet(v, 30)}",
                   detail="key is not an integer literal or value is not a plain name")
         entries.append((key, vname, v))
+
+    def verdict(ok: bool) -> bool | None:
+        return True if ok else (None if opaque else False)
+
+    unread = "" if not opaque else "the literal has entries that could not be read (see entry-readable)"
 
     def original(vname: str | None) -> str | None:
         """api_pb2 name a local value name stands for (None when not from api_pb2)."""
@@ -282,19 +333,19 @@ def _table_obligations(b: Builder, proto: ProtoFile, srcs: Sources) -> None:
         present = n in effective
         ok = present and len(by_id[n]) == 1 and got == by_id[n][0].name and original(got_local) is not None
         b.add(f"core.{TABLE}/id={n}/maps-to-declared-message",
-              f"{TABLE}[{n}] is api_pb2.{want}", F_TABLE, ok,
+              f"{TABLE}[{n}] is api_pb2.{want}", F_TABLE, verdict(ok),
               model={"id": n, "declared": want, "table": got_local if present else None,
                      "table_value_is_api_pb2": original(got_local)},
-              witness=f"id={n}:missing" if not present else f"id={n}:{got}!={want}")
+              witness=f"id={n}:missing" if not present else f"id={n}:{got}!={want}", detail=unread)
         idx = n - 1
         p_local = positional[idx] if 0 <= idx < len(positional) else None
         p_got = original(p_local) or p_local
         ok = p_local is not None and len(by_id[n]) == 1 and p_got == by_id[n][0].name
         b.add(f"connection.MESSAGE_NUMBER_TO_PROTO/id={n}/positional-lookup",
               f"tuple({TABLE}.values())[{n} - 1] is api_pb2.{want}",
-              f"{PKG}.connection.MESSAGE_NUMBER_TO_PROTO", ok,
+              f"{PKG}.connection.MESSAGE_NUMBER_TO_PROTO", verdict(ok),
               model={"id": n, "declared": want, "at_position": p_local, "table_len": len(positional)},
-              witness=f"pos={n}:{p_got}!={want}")
+              witness=f"pos={n}:{p_got}!={want}", detail=unread)
 
     # -- per written key: declared, single, value bound to api_pb2 ----------
     counts: dict[Any, int] = {}
@@ -315,10 +366,12 @@ def _table_obligations(b: Builder, proto: ProtoFile, srcs: Sources) -> None:
         binds = imports.get(vname or "", [])
         foreign = sorted({f"{s}:{o}" for s, o in binds if not _is_pb2(s)})
         rebinds = _other_bindings(core, vname) if vname else []
-        ok = bool(vname) and any(_is_pb2(s) for s, _ in binds) and not foreign and not rebinds
+        ok: bool | None = any(_is_pb2(s) for s, _ in binds) and not foreign and not rebinds
+        if vname is None:
+            ok = None              # value is not a plain name: see entry-readable
         b.add(f"core.{TABLE}/key={key}/value-bound-to-api_pb2",
               f"the name under key {key} ({vname}) is bound only by `from .api_pb2 import`",
-              F_TABLE, ok,
+              F_TABLE, ok, detail="" if vname else "table value is not a plain name",
               model={"key": key, "name": vname, "import_bindings": [list(x) for x in binds],
                      "other_bindings": rebinds},
               witness=f"key={key}:{vname}:" + ("not-imported-from-api_pb2" if not any(_is_pb2(s) for s, _ in binds)
@@ -328,8 +381,8 @@ def _table_obligations(b: Builder, proto: ProtoFile, srcs: Sources) -> None:
     for pos, (key, vname, _) in enumerate(entries, start=1):
         b.add(f"core.{TABLE}/pos={pos}/key-equals-position",
               f"entry {pos} of the {TABLE} literal has key {pos} (insertion order 1..N, step 1)",
-              F_TABLE, key == pos, model={"position": pos, "key": key, "value": vname},
-              witness=f"pos={pos}:key={key}")
+              F_TABLE, verdict(key == pos), model={"position": pos, "key": key, "value": vname},
+              witness=f"pos={pos}:key={key}", detail=unread)
 
     # -- the tables stay what the literal says -------------------------------
     rebinds = _other_bindings(core, TABLE, defs[0])
@@ -347,9 +400,7 @@ def _table_obligations(b: Builder, proto: ProtoFile, srcs: Sources) -> None:
             b.add(f"{_short(rel)}/tables-not-mutated", f"{rel} can be parsed", rel, None,
                   detail=f"SyntaxError: {e.msg}", witness=f"{rel}:syntax-error")
             continue
-        hits: list[str] = []
-        for t in (TABLE, "MESSAGE_NUMBER_TO_PROTO", "PROTO_TO_MESSAGE_TYPE"):
-            hits += _mutations(tree, t)
+        hits = _mutations(tree, (TABLE, "MESSAGE_NUMBER_TO_PROTO", "PROTO_TO_MESSAGE_TYPE"))
         if hits or rel == CONNECTION:
             b.add(f"{_short(rel)}/tables-not-mutated",
                   f"{rel} does not mutate {TABLE} / MESSAGE_NUMBER_TO_PROTO / PROTO_TO_MESSAGE_TYPE",
@@ -366,7 +417,7 @@ def _table_obligations(b: Builder, proto: ProtoFile, srcs: Sources) -> None:
         conn = srcs.tree(CONNECTION)
     except (OSError, SyntaxError):
         return
-    cimports = _pb2_import_bindings(conn)
+    cimports = _import_bindings(conn)
     binds = cimports.get(TABLE, [])
     ok = binds and all(s in (".core", f"{PKG}.core") and o == TABLE for s, o in binds) \
         and not _other_bindings(conn, TABLE)
@@ -379,7 +430,7 @@ def _table_obligations(b: Builder, proto: ProtoFile, srcs: Sources) -> None:
 
 
 def _short(rel: str) -> str:
-    from .common import modname
+    """``aioesphomeapi/connection.py`` -> ``connection`` (module name used in ids)."""
     return modname(rel)
 
 
@@ -830,12 +881,21 @@ def _bypass_obligations(b: Builder, prog: Program, summary: dict[Func, dict[str,
 
 
 # ============================================================================
-def obligations(repo: str = "/repo", sources: dict[str, str] | None = None) -> list[Obligation]:
+FAMILIES = ("ids", "table", "descriptors", "direction")
+
+
+def obligations(repo: str = "/repo", sources: dict[str, str] | None = None,
+                only: tuple[str, ...] | None = None) -> list[Obligation]:
     """All ground obligations of C13 for the working tree of ``repo``.
 
     ``sources`` maps repo-relative paths to replacement text (self-tests); the
     descriptor comparison always loads the real compiled files of ``repo``.
+    ``only`` restricts the run to some of ``FAMILIES`` (self-tests; default all).
     """
+    fams = set(FAMILIES if only is None else only)
+    unknown = fams - set(FAMILIES)
+    if unknown:
+        raise ValueError(f"unknown obligation families: {sorted(unknown)}")
     srcs = Sources(repo, sources)
     b = Builder(PROP)
     try:
@@ -846,8 +906,12 @@ def obligations(repo: str = "/repo", sources: dict[str, str] | None = None) -> l
               detail=f"{type(e).__name__}: {e}", witness="api.proto:unparsed")
         return b.out
     b.add("api.proto/parsed", "api.proto and api_options.proto can be parsed", "api.proto", True)
-    _proto_id_obligations(b, proto)
-    _table_obligations(b, proto, srcs)
-    _descriptor_obligations(b, proto, opts, repo)
-    _direction_obligations(b, proto, srcs)
+    if "ids" in fams:
+        _proto_id_obligations(b, proto)
+    if "table" in fams:
+        _table_obligations(b, proto, srcs)
+    if "descriptors" in fams:
+        _descriptor_obligations(b, proto, opts, repo)
+    if "direction" in fams:
+        _direction_obligations(b, proto, srcs)
     return b.out
